@@ -386,6 +386,32 @@ def _emit_extracted(u, target, args, block, subst, emit):
         # unique obligation name for trait-impl methods: <method>@<implementor>
         fname = fname + '@' + re.sub(r'[^A-Za-z0-9_]', '', args['impl'].split(' for ')[-1].split('<')[0]) if ' for ' in args['impl'] else fname + '@' + re.sub(r'[^A-Za-z0-9_]+', '_', args['impl'])[:40]
     fired = set()
+    if 'tail_after' in args:
+        # tail extraction: the generated function's body is everything that FOLLOWS one statement of the real function (found by its leading text) up to the end of the
+        # body; the free variables are the parameters of the signature the unit states (`sig=`)
+        if 'sig' not in args:
+            raise ExtractError(f'tail_after= needs sig= ({relpath}::{fname})')
+        from rx import lex as _lexS, match_close as _mcS
+        pos = find_stmt(ft.body, args['tail_after'], int(args.get('stmt_nth', 1)) - 1)
+        if pos is None:
+            raise ExtractError(f'lost anchor: statement `{args["tail_after"]}` not found in {relpath}::{fname}')
+        toksS = _lexS(ft.body)
+        k = next(k for k, t in enumerate(toksS) if t.start >= pos[0] and t.kind not in ('ws', 'lcomment', 'bcomment', 'doc'))
+        endS = None
+        while k < len(toksS):
+            t = toksS[k]
+            if t.kind == 'p':
+                if t.text in '([{':
+                    k = _mcS(toksS, k) + 1; continue
+                if t.text == ';':
+                    endS = t.end; break
+            k += 1
+        if endS is None:
+            raise ExtractError(f'lost anchor: end of statement `{args["tail_after"]}` not found in {relpath}::{fname}')
+        ft.body = '{\n' + ft.body[endS:ft.body.rstrip().rfind('}')] + '\n}'
+        ft.sig = args['sig']
+        fname = args.get('as', fname + '__tail')
+        fired.add('tail_after[' + args['tail_after'] + ']')
     if 'only_stmt' in args:
         # statement extraction: the generated function's body is ONE statement (simple or block: `for .. { }`, `if .. { }`) of the real function, found by its leading text;
         # its free variables become the parameters of the signature the unit states (`sig=`).  `return` inside the statement leaves the generated function, which is what
@@ -427,6 +453,10 @@ def _emit_extracted(u, target, args, block, subst, emit):
         fname = args.get('as', fname + '__stmt')
         fired.add('only_stmt[' + args['only_stmt'] + ']')
     sig = rule_R1_R3(ft.sig, fired)
+    if 'sig' in args and 'only_stmt' not in args and 'tail_after' not in args:
+        # stated replacement of the signature (R6: a generic bound on a foreign trait, e.g. `R: std::io::Read`, restated over the unit's stand-in type); the body is the real one
+        sig = args['sig']
+        fired.add('sig[' + args['sig'] + ']')
     body = rule_R1_R3(ft.body, fired)
     body = rule_R9(body, fired)
     body = r4.apply(body, fired)
